@@ -1,8 +1,9 @@
 (* Correspondence glue for C15: compares the answers of model/Types.v with the
    answers of the implementation recorded by harness/drive_c15.py
    (observables only: declared or not, required flag, runtime type built from the
-   annotation, raised or not, the stored value; for submit: raised or not and
-   whether a job was registered).                                              *)
+   annotation, the value a freshly built configuration holds, raised or not, the
+   stored value; for a history of submits / validations / assignments: raised or
+   not and how many jobs the call registered).                                 *)
 From Coq Require Import ZArith List Bool String.
 From XV Require Import model.Types.
 Import ListNotations.
@@ -64,16 +65,18 @@ Definition opt_eqb {A} (e : A -> A -> bool) (a b : option A) : bool :=
 
 (* ---------------------------------------------------------------- assignment *)
 Record assign_answer := {
-  aa_declared : bool;            (* the class could be used (Type.fromType found a type) *)
+  aa_declared : bool;            (* the class could be used (Type.fromType found a type, the default was accepted) *)
   aa_required : bool;            (* Argument.required *)
   aa_ty : option tyexp;          (* the runtime Type object, read back *)
+  aa_init_raised : bool;         (* H() raised *)
+  aa_initial : option value;     (* .values["x"] of a fresh H(): what an unassigned parameter holds *)
   aa_raised : bool;              (* the assignment raised *)
   aa_after : option value        (* .values["x"] afterwards; None = no entry *)
 }.
 
 Record assign_case := {
   ac_annot : annot;
-  ac_default : option value;     (* x: Param[...] = default *)
+  ac_default : option value;     (* x: Param[...] = default, as written *)
   ac_old : option value;         (* assigned first (a conforming value) *)
   ac_sealed : bool;              (* sealed before the assignment under test *)
   ac_ctor : bool;                (* H(x=v) instead of H().x = v *)
@@ -81,64 +84,62 @@ Record assign_case := {
   ac_ans : assign_answer
 }.
 
-(* TypeConfig.__init__ without the argument: the default (through set, bypass), else
-   None when the parameter is not required; then the optional first assignment   *)
-Definition init_fields (cl : classes) (d : argdecl) (default old : option value) : list (nat * value) :=
-  let fs0 :=
-    match default with
-    | Some dv => match assign cl d false true dv with Ok x => [(0%nat, x)] | Err => [] end
-    | None => if a_required d then [] else [(0%nat, VNone)]
-    end in
-  match old with
-  | Some ov => match assign cl d false false ov with Ok x => set_field fs0 0 x | Err => fs0 end
-  | None => fs0
-  end.
+Definition with_sealed (n : node) (b : bool) : node :=
+  {| n_cls := n_cls n; n_fields := n_fields n; n_pre := n_pre n; n_init := n_init n; n_sealed := b |}.
 
 Definition check_assign (cl : classes) (c : assign_case) : bool :=
   let a := ac_ans c in
-  match declare (ac_annot c) (match ac_default c with Some _ => true | None => false end) with
+  match declare_default cl (ac_annot c) (ac_default c) with
   | None => negb (aa_declared a)
   | Some d =>
       aa_declared a && Bool.eqb (a_required d) (aa_required a) &&
       opt_eqb tyexp_eqb (aa_ty a) (Some (a_ty d)) &&
       let cl' := cl ++ [ {| c_parents := []; c_task := false; c_args := [d] |} ] in
-      let n := {| n_cls := List.length cl;
-                  n_fields := if ac_ctor c then [] else init_fields cl' d (ac_default c) (ac_old c);
-                  n_pre := []; n_init := []; n_sealed := ac_sealed c |} in
-      let '(n', o) := cfg_set cl' n 0 (ac_v c) in
-      Bool.eqb (aa_raised a) (match o with Stored => false | _ => true end) &&
-      opt_eqb value_eqb (aa_after a) (cfg_get n' 0)
+      let h := List.length cl in
+      let defs := [ac_default c] in
+      match cfg_new cl' defs h [] with                     (* H() *)
+      | Err => aa_init_raised a
+      | Ok n0 =>
+          negb (aa_init_raised a) && opt_eqb value_eqb (aa_initial a) (cfg_get n0 0) &&
+          if ac_ctor c then
+            match cfg_new cl' defs h [(0%nat, ac_v c)] with   (* H(x=v) *)
+            | Err => aa_raised a && opt_eqb value_eqb (aa_after a) None
+            | Ok n' => negb (aa_raised a) && opt_eqb value_eqb (aa_after a) (cfg_get n' 0)
+            end
+          else
+            let n1 := match ac_old c with Some ov => fst (cfg_set cl' n0 0 ov) | None => n0 end in
+            let '(n', o) := cfg_set cl' (with_sealed n1 (ac_sealed c)) 0 (ac_v c) in
+            Bool.eqb (aa_raised a) (match o with Stored => false | _ => true end) &&
+            opt_eqb value_eqb (aa_after a) (cfg_get n' 0)
+      end
   end.
 
 (* -------------------------------------------------------------------- graphs *)
+(* a history of operations on one set of objects (model: sess_step), compared call by
+   call: raised or not, number of jobs the call added to the scheduler              *)
 Record graph_case := {
   gc_heap : heap;
-  gc_ops : list (bool * nat);          (* (true = submit | false = validate only, root) *)
+  gc_ops : list op;
   gc_ans : list (bool * nat)           (* (raised, jobs registered by this call) *)
 }.
 
-Fixpoint check_ops (cl : classes) (h : heap) (reg : list nat)
-                   (ops : list (bool * nat)) (ans : list (bool * nat)) : bool :=
+Fixpoint check_ops (cl : classes) (s : session) (ops : list op) (ans : list (bool * nat)) : bool :=
   match ops, ans with
   | [], [] => true
-  | (true, root) :: ops', (raised, delta) :: ans' =>
-      let '(reg', v) := submit cl h reg root in
+  | o :: ops', (raised, delta) :: ans' =>
+      let '(s', v) := sess_step cl s o in
       match v with
-      | Accepted => negb raised && Nat.eqb delta 1
-      | Rejected => raised && Nat.eqb delta 0
+      | Accepted => negb raised
+      | Rejected => raised
       | OutOfFuel => false
-      end && check_ops cl h reg' ops' ans'
-  | (false, root) :: ops', (raised, delta) :: ans' =>
-      match cfg_validate cl h root with
-      | Some (VOk _) => negb raised && Nat.eqb delta 0
-      | Some (VErr _) => raised && Nat.eqb delta 0
-      | None => false
-      end && check_ops cl h reg ops' ans'
+      end &&
+      Nat.eqb delta (List.length (s_reg s') - List.length (s_reg s)) &&
+      check_ops cl s' ops' ans'
   | _, _ => false
   end.
 
 Definition check_graph (cl : classes) (c : graph_case) : bool :=
-  check_ops cl (gc_heap c) [] (gc_ops c) (gc_ans c).
+  check_ops cl {| s_heap := gc_heap c; s_jobs := []; s_reg := [] |} (gc_ops c) (gc_ans c).
 
 (* one entry point for both kinds of C15 case *)
 Inductive ccase := CAssign (c : assign_case) | CGraph (c : graph_case).
